@@ -98,6 +98,13 @@ def probe_case(rng):
         A = [{'k': 'label', 'name': 'g1'}, {'k': 'label', 'name': '.l'}, {'k': 'data', 'w': 1, 'vals': [v()]},
              {'k': 'const', 'name': 'kk', 'e': v()}] + ([{'k': 'label', 'name': '.l'}] if dup else []) + [ref('.l')]
     files = [f for f in (A, B, C) if f]
+    if rng.random() < 0.3:
+        # the reference inside a muted region: a muted statement emits nothing, its names are looked up all the same
+        for f in files:
+            idx = [i for i, st in enumerate(f) if st['k'] == 'data' and any(isinstance(x, tuple) and x[0] == 'label' for x in st['vals'])]
+            if idx:
+                i = idx[-1]
+                f[i:i + 1] = [{'k': 'mute'}, f[i], {'k': 'unmute'}]
     # optional harmless padding
     for f in files:
         if rng.random() < 0.5:
